@@ -159,6 +159,14 @@ func closedByCallee[T any](ch chan T) (was bool) {
 // drainPause: set by a harness for the duration of a case to make the consumers of lookup results slow (simulated time).
 var drainPause time.Duration
 
+// drainCancel: when set, the consumer calls it once it has received drainCancelAfter elements (a caller that gives up in
+// the middle of a stream); drainCancelled reports that it happened.
+var (
+	drainCancel      func()
+	drainCancelAfter int
+	drainCancelled   bool
+)
+
 // drainPausePlain: the pause also applies outside the scheduler (a harness that runs its sequential history in a plain
 // synctest bubble).
 var drainPausePlain bool
@@ -174,6 +182,10 @@ func runLookup[T any](capacity int, onReturn func(), key func(T) string, isNil f
 				time.Sleep(drainPause) // a consumer that is slow in simulated time (the lookup holds its read lock meanwhile)
 			}
 			n++
+			if drainCancel != nil && n == drainCancelAfter {
+				drainCancelled = true
+				drainCancel()
+			}
 			if isNil(x) {
 				res.NilEl = true
 				continue
